@@ -215,9 +215,12 @@ def check_reread(obj, conc, ci, c2):
                 fails.append("variant %s paths.%s: expected %r, read %r" % (uid, cat, stored.get(cat, {}),
                                                                              getattr(b.paths, cat, "<attribute missing>")))
         if nd["type"] == "layered-product":
-            for f in ("name", "short", "version", "type", "is_layered"):
+            for f in ("name", "short", "version", "type"):
                 if getattr(a.release, f) != getattr(b.release, f):
                     fails.append("variant %s release.%s: wrote %r, read %r" % (uid, f, getattr(a.release, f), getattr(b.release, f)))
+            # the release of a layered product is layered, whatever the object said before it was written
+            if b.release.is_layered is not True:
+                fails.append("variant %s release.is_layered: read %r for a layered-product variant" % (uid, b.release.is_layered))
     if obj["dashed"]:
         try:
             b = c2[conc.dashuid]
